@@ -137,7 +137,7 @@ def main(tier_: str) -> int:
             with da.app.test_request_context('/'):
                 for hv in (None, 4.0, 4.1, 4.2, 4.3):
                     for nk in (1, 2, 3):
-                        for la in (la_urls if tier_ == 'thorough' else la_urls[:1] + rng.sample(la_urls[1:], 1)):      # the '&' URL always
+                        for la in (la_urls if tier_ == 'thorough' else la_urls[:1] + la_urls[-1:] + rng.sample(la_urls[1:-1], 1)):      # the '&' and the {cfgs} URL always
                             ks = rng.sample(kids[-8:], nk)
                             # the default key id (first of ks) takes every position of the key set: 4.0 / 4.1 headers
                             # name only the default key and must carry that key's checksum
@@ -168,7 +168,22 @@ def main(tier_: str) -> int:
                             la_eq = 1 if (got_la == exp_la or ('{cfgs}' in exp_la and got_la.startswith(exp_la.split('{cfgs}')[0]))) else 0
                             if not rp.get('wf') or (rp.get('la_url_xml') or '') != got_la:
                                 la_eq = 0        # not well-formed XML, or the XML reading of LA_URL differs from the textual one
+                            # the {cfgs} format field names every key of the set inside the licence URL:
+                            # (kid:<base64 of the little-endian GUID>,persist:false,sl:<n>[,contentkey:<base64 key>]),...
+                            has_cfgs = 1 if '{cfgs}' in la else 0
+                            cfg_kids, cfg_keys = [], []
+                            if has_cfgs:
+                                for mm in re.finditer(r'\(kid:([A-Za-z0-9+/=]+)((?:,[a-z]+:[^,)]*)*)\)', got_la):
+                                    try:
+                                        cfg_kids.append(list(base64.b64decode(mm.group(1))))
+                                        ck = re.search(r'contentkey:([A-Za-z0-9+/=]+)', mm.group(2))
+                                        cfg_keys.append(list(base64.b64decode(ck.group(1))) if ck else [])
+                                    except Exception:      # noqa: BLE001
+                                        cfg_kids.append([])
+                                        cfg_keys.append([])
                             lines.append({'ev': 'pro', 'hv': str(hv), 'version': rp['version'], 'kids': [list(k) for k in want_kids],
+                                          'has_cfgs': has_cfgs, 'cfg_kids': cfg_kids, 'cfg_keys': cfg_keys,
+                                          'all_kids': [list(k) for k in order], 'all_keys': [list(keys[k.hex()].KEY.raw) for k in order],
                                           'keys': [list(keys[k.hex()].KEY.raw) for k in want_kids], 'la_eq': la_eq,
                                           'pro_kids': rp['kids'], 'pro_checksums': rp['checksums'], 'la_url': la, 'got_la_url': got_la})
             # ---- ClearKey endpoint ---------------------------------------------------------------
